@@ -118,6 +118,8 @@ def m_len(it, v):
         if v.length is None:
             raise Unsupported("len of abstract bytes without length")
         return SInt(v.length) if not isinstance(v.length, int) else v.length
+    if type(v).__name__ in ("MPBytes", "MPTrunc"):
+        return SInt(v.length) if not isinstance(v.length, int) else v.length
     if isinstance(v, Sym):
         raise Unsupported(f"len of {v!r}")
     try:
